@@ -83,12 +83,12 @@ def _stage_ab(ctx):
                     case = {"stage": "B", "op": "derenc", "r": rr, "s": ss, "expected": want}
                     if "err" in got:
                         ctx.violation("derenc-raised", dict(case, got=str(got)))
-                    elif list(got["ok"]) != want:
-                        ctx.violation("der-not-strict-or-wrong", dict(case, got=list(got["ok"])))
+                    elif not isinstance(got["ok"], (bytes, bytearray)) or list(got["ok"]) != want:
+                        ctx.violation("der-not-strict-or-wrong", dict(case, got=str(got["ok"])[:200]))
                     back = vlib.run_call(bu.der_decode_sig, bytes(want))
                     if "err" in back:
                         ctx.violation("derdec-rejects-strict", dict(case, got=str(back)))
-                    elif tuple(back["ok"]) != (rr, ss):
+                    elif not isinstance(back["ok"], (tuple, list)) or tuple(back["ok"]) != (rr, ss):
                         ctx.violation("derdec-wrong", dict(case, got=str(back)))
         # nonce clause, exhaustively: two signatures that differ in key or message share r only if the source repeated a
         # draw (or its negation, k and n-k have the same x) - or if the specification's own r values coincide (x mod n wrap)
